@@ -31,7 +31,7 @@ fuzz_target!(|data: &[u8]| {
         return;
     }
     let digits = if pow2 { 0 } else { let d = b.u8(); if d & 3 == 0 { (d >> 2) % 41 } else { 0 } };
-    let case = checks::c06::Case { bits, notation: (sel >> 1) % 5, trim: sel & 0x80 != 0, digits };
+    let case = checks::c06::Case { bits, notation: (sel >> 1) % 5, trim: sel & 0x80 != 0, digits, min_digits: if pow2 { 0 } else { let d = b.u8(); if d & 3 == 0 { (d >> 2) % 61 } else { 0 } } };
     let mut l = Local::new();
     let r = if pow2 { checks::c06::check_pow2(j, &case, &mut l) } else { checks::c06::check_generic(j, &case, &mut l) };
     if let Err(f) = r {
